@@ -15,7 +15,7 @@ MANIFEST = {
     "text": "Effect-trace contract on tar_syncer._pre_download / _post_download over a ghost directory (repository path, .name.update and "
             ".name.old staging directories, each empty, holding the complete old tree, the complete new tree or a partial unpack), for a "
             "repository that exists or not, every leftover state an interrupted earlier sync can leave, and every failure outcome "
-            "(staging directories cannot be created, tar fails after a partial unpack, either rename fails, an interrupt from the keyboard arrives before either rename), "
+            "(staging directories cannot be created, tar fails after a partial unpack, either rename fails, an interrupt from the keyboard arrives before either rename, the second rename and the restoring rename both fail), "
             "followed by the exit handlers the sync registered: after every effect the "
             "repository path holds the complete old tree or the complete new tree; data is only ever unpacked into the hidden staging "
             "directory; every failure raises SyncError with the previous tree back at the repository path; starting from every state a "
@@ -48,7 +48,7 @@ def install_models(it, dirs, T, faults):
 
     def m_rename(it_, a, b):
         a, b = N(a), N(b)
-        if faults.get("rename") == a:
+        if faults.get("rename") == a or faults.get("rename_too") == a:
             raise PyRaise(OSError(18, "Invalid cross-device link"))
         if faults.get("interrupt") == a:
             raise PyRaise(KeyboardInterrupt())
@@ -115,13 +115,16 @@ def t_sync(ex):
     import pkgcore.sync.tar as T
     from pkgcore.sync import base
     start = sorted(START_STATES)[ex.choose(len(START_STATES))]
-    fault = (None, "makedirs_update", "makedirs_old", "tar", "rename_aside", "rename_in", "interrupt_before_rename_aside", "interrupt_before_rename_in")[ex.choose(8)]
+    fault = (None, "makedirs_update", "makedirs_old", "tar", "rename_aside", "rename_in", "interrupt_before_rename_aside", "interrupt_before_rename_in",
+             "rename_in_and_the_restoring_rename", "interrupt_before_rename_in_and_the_restoring_rename")[ex.choose(10)]
     interrupted = fault is not None and fault.startswith("interrupt")
+    double = fault is not None and fault.endswith("the_restoring_rename")
     P = f"C47.tar_syncer[{start}{', ' + fault + ' fails' if fault else ''}]"
     it = Interp(ex, label=P)
     dirs = Dirs(START_STATES[start])
     faults = {"makedirs_update": {"makedirs": UPD}, "makedirs_old": {"makedirs": OLD}, "tar": {"tar": True}, "rename_aside": {"rename": BASE}, "rename_in": {"rename": UPD},
-              "interrupt_before_rename_aside": {"interrupt": BASE}, "interrupt_before_rename_in": {"interrupt": UPD}}.get(fault, {})
+              "interrupt_before_rename_aside": {"interrupt": BASE}, "interrupt_before_rename_in": {"interrupt": UPD},
+              "rename_in_and_the_restoring_rename": {"rename": UPD}, "interrupt_before_rename_in_and_the_restoring_rename": {"interrupt": UPD}}.get(fault, {})
     install_models(it, dirs, T, faults)
     me = SObj(T.tar_syncer, {"basedir": BASE + "/", "uri": "https://example.org/repo.tar.gz"})
     prev = "new" if start == "stopped_after_the_renames" else ("old" if any(v == "old" for v in START_STATES[start].values()) else None)
@@ -136,6 +139,8 @@ def t_sync(ex):
     if BASE not in dirs.d:
         dirs.d[BASE] = "empty"
     mark = len(dirs.trace)
+    if double:
+        faults["rename_too"] = OLD      # (only now: _pre_download's own recovery of a tree left aside is not what fails here)
     out = call(it, it.target(TAR, "tar_syncer._post_download"), me, "/tmp/download.tar.gz")
     # the process ends: the registered exit handlers run, last registered first (after an interrupt from the keyboard just as after a normal return)
     import functools
@@ -143,6 +148,14 @@ def t_sync(ex):
         hr = call(it, h.func, *h.args, **h.keywords) if isinstance(h, functools.partial) else call(it, h)
         ex.oblige(f"{P}.exit_handlers.raise.nothing", not hr.raised, kind="exceptional-postcondition")
     ex.oblige(f"{P}.invariant.nothing_is_unpacked_or_deleted_at_the_repository_path", not dirs.bad, kind="invariant", note="; ".join(dirs.bad))
+    if double:
+        # two faults in a row (the swap's second rename and the rename that would put the old tree back): the repository path may be empty now,
+        # but the previous tree still exists where the next sync looks for it -- the exit handlers must not have taken the only copy
+        ex.oblige(f"{P}.raises.something", out.raised, kind="exceptional-postcondition")
+        if prev is not None:
+            ex.oblige(f"{P}.ensures.the_previous_tree_survives_the_exit_handlers_at_the_repository_path_or_moved_aside",
+                      dirs.d.get(BASE) == prev or dirs.d.get(OLD) == prev, note=f"directories after the exit handlers: {dirs.d}")
+        return
     for what, state in dirs.trace[mark:]:
         at = state.get(BASE)
         ok = at in ("old", "new") or (prev is None and at in (None, "empty"))
